@@ -139,10 +139,18 @@ class Runner(object):
   def fresh(self):
     self.eng = adapter.new_engine()
     adapter.apply(self.eng, [["InitNewDoc"]])
+    # every second document gives the data columns k2 and v DEFAULT FORMULAS whose values are the plain
+    # type defaults ('' and 0): the specification is the same, but `require` / col_values now name
+    # columns that "have a formula" without being formula columns
+    self.n_fresh = getattr(self, "n_fresh", 0) + 1
+    self.variant = getattr(self, "force_variant", None)
+    if self.variant is None:
+      self.variant = "formulas" if self.n_fresh % 2 == 0 else "plain"
+    f2, fv = ("''", "0") if self.variant == "formulas" else ("", "")
     adapter.apply(self.eng, [["AddTable", TABLE, [
       {"id": "k1", "type": "Int", "isFormula": False},
-      {"id": "k2", "type": "Text", "isFormula": False},
-      {"id": "v", "type": "Int", "isFormula": False}]]])
+      {"id": "k2", "type": "Text", "isFormula": False, "formula": f2},
+      {"id": "v", "type": "Int", "isFormula": False, "formula": fv}]]])
     self.used = 0
     self.meta = self.meta_digest()
     self.current = self.table()[0]
@@ -221,7 +229,12 @@ class Runner(object):
       raise
 
   def _run(self, inp):
+    if inp.get("docvariant"):         # a replay names the document variant of the recorded run
+      if getattr(self, "variant", None) != inp["docvariant"]:
+        self.force_variant = inp["docvariant"]
+        self.eng = None
     self.prepare(inp)
+    inp["docvariant"] = self.variant
     before = self.current
     o = {"exc": "", "same": 0, "retok": 0, "recs": [], "adds": [], "upds": [], "action": ""}
     try:
@@ -245,6 +258,8 @@ def normal(inp):
        "colvals": cols(inp["colvals"]), "opts": dict(inp["opts"])}
   prep = inp.get("prep") or {"kind": "doc"}
   d["prep"] = {"kind": prep["kind"], "pre": [dict(r) for r in prep.get("pre", [])]}
+  if inp.get("docvariant"):
+    d["docvariant"] = inp["docvariant"]
   return d
 
 
